@@ -571,11 +571,21 @@ def gen_exact_scene(rng):
         attr = (' clip-path="url(#%s)"' % c['id'] if c else '') + (' mask="url(#%s)"' % m['id'] if m else '')
         col = rng.choice(['#ff0000', '#00ff00', '#0000ff', '#808080'])
         rect = '<rect x="%d" y="%d" width="%d" height="%d" fill="%s" shape-rendering="crispEdges"%%s/>' % (x, y, w, h, col)
+        if (c or m) and w >= 8 and h >= 8 and rng.below(3) == 0:
+            # the user is a GROUP whose object bounding box (x, y, w, h) is spanned by a painted rect in one corner and an UNPAINTED
+            # spacer in the opposite corner: unpainted geometry still counts for objectBoundingBox units
+            pw, ph = 4 * (1 + rng.below(w // 4 - 1)) if w > 8 else 4, 4 * (1 + rng.below(h // 4 - 1)) if h > 8 else 4
+            spacer = rng.choice(['fill="none"', 'fill="none" stroke="none"', 'fill="#ff0" fill-opacity="0"', 'fill="#ff0" opacity="0"'])
+            sc.tags.add('bbox-from-unpainted-child')
+            body += ('<g transform="translate(%d %d)"%s><rect x="%d" y="%d" width="%d" height="%d" fill="%s" shape-rendering="crispEdges"/>'
+                     '<rect x="%d" y="%d" width="%d" height="%d" %s/></g>' % (t[0], t[1], attr, x, y, pw, ph, col, x + w - 3, y + h - 2, 3, 2, spacer))
+            users.append((x, y, w, h, t, c, m, (x, y, pw, ph)))
+            continue
         if rng.below(2):
             body += '<g transform="translate(%d %d)"%s>%s</g>' % (t[0], t[1], attr, rect % '')
         else:
             body += rect % ((' transform="translate(%d %d)"' % t if t != (0, 0) else '') + attr)
-        users.append((x, y, w, h, t, c, m))
+        users.append((x, y, w, h, t, c, m, (x, y, w, h)))
     ids_like_generated = [i for i in ID_POOL[:8] if i not in sc.ids]
     if ids_like_generated:
         sc.tags.add('generated-looking-ids')
@@ -587,9 +597,9 @@ def gen_exact_scene(rng):
     for py in range(EX):
         for px in range(EX):
             vis = False
-            for (x, y, w, h, t, c, m) in users:
+            for (x, y, w, h, t, c, m, painted) in users:
                 ux, uy = px - t[0], py - t[1]
-                if not (x <= ux < x + w and y <= uy < y + h):
+                if not (painted[0] <= ux < painted[0] + painted[2] and painted[1] <= uy < painted[1] + painted[3]):
                     continue
                 if c and not sc.clip_at(c, (x, y, w, h), ux, uy):
                     continue
@@ -601,10 +611,23 @@ def gen_exact_scene(rng):
     return dict(doc=doc, expected=exp, tags=sorted(sc.tags))
 
 
+def gen_thick_strokes(rng):
+    """thick open diagonal strokes, every cap x join: their caps and joins reach beyond the geometry's box"""
+    out = ''
+    for _ in range(1 + rng.below(2)):
+        pts = [(dy(rng, 40, 120, 4), dy(rng, 40, 120, 4)) for _ in range(2 + rng.below(2))]
+        out += ('<path d="M %s" fill="none" stroke="%s" stroke-width="%s" stroke-linecap="%s" stroke-linejoin="%s"%s/>'
+                % (" L ".join("%s %s" % (num(a), num(b)) for a, b in pts), rng.choice(P.COLORS[:6]), num(rng.choice([8, 10, 12, 16, 22])),
+                   rng.choice(['butt', 'round', 'square']), rng.choice(['miter', 'round', 'bevel']), ' stroke-opacity="0.5"' if rng.below(4) == 0 else ''))
+    return out
+
+
 def gen_case(rng, mode):
-    """mode: clip | mask | opacity"""
+    """mode: clip | mask | opacity | cover"""
     defs = []
     content, bbox = P.gen_content(rng, defs)
+    if mode == 'cover':
+        content = gen_thick_strokes(rng) + (content if rng.below(3) == 0 else '')
     gts_attr = ''
     gts = ''
     if rng.below(3) == 0:
@@ -631,6 +654,20 @@ def gen_case(rng, mode):
         attr = ' mask="url(#%s)"' % m['id']
         outside = formula(m['outside'])
         inside = formula(m['inside']) if (m['inside'] and (m['kind'] != 'alpha' or True)) else '-'
+    elif mode == 'cover':
+        # a clip path / white luminance mask that covers everything must leave the content unchanged EVERYWHERE, also where thick
+        # caps and joins reach beyond the boxes usvg reports (the layer of the isolated group must be large enough)
+        big = '<rect x="-400" y="-400" width="1000" height="1000" fill="#ffffff"/>'
+        if rng.below(2):
+            defs.append('<clipPath id="cv">%s</clipPath>' % big)
+            attr = ' clip-path="url(#cv)"'
+            info['cover'] = 'clip path'
+        else:
+            defs.append('<mask id="cv" maskUnits="userSpaceOnUse" x="-500" y="-500" width="1200" height="1200" mask-type="%s">%s</mask>' % (rng.choice(['luminance', 'alpha']), big))
+            attr = ' mask="url(#cv)"'
+            info['cover'] = 'white mask'
+        outside = '-'
+        inside = cov_doc(big, [gts])
     else:
         o = rng.choice([0, 0.1, 0.5, 0.9, 1])
         attr = ' opacity="%s"' % num(o)
@@ -813,6 +850,7 @@ def run(ctx):
     n_clip, n_mask, n_op = (700, 350, 60) if quick else (7000, 3500, 400)
     cases = [gen_case(rng, 'clip') for _ in range(n_clip)] + [gen_case(rng, 'mask') for _ in range(n_mask)] + [gen_case(rng, 'opacity') for _ in range(n_op)]
     n_sh = 120 if quick else 1200
+    cases += [gen_case(rng, 'cover') for _ in range(150 if quick else 1500)]
     cases += [gen_shared_case(rng, 'clip') for _ in range(n_sh // 3)] + [gen_shared_case(rng, 'mask') for _ in range(n_sh - n_sh // 3)]
     pool = cf.ThreadPoolExecutor(max_workers=2)
     fut_sys = pool.submit(ctx.rvh_batch, binp, 'c15-sys', [payload(c) for c in cases], (), 60)
@@ -967,7 +1005,8 @@ def run(ctx):
     for c, o in zip(cases, souts):
         r = P.jload(o)
         c['kind'] = c['mode']
-        c['what'] = {'clip': 'the clip path', 'mask': 'the mask', 'opacity': 'group opacity %s' % c.get('opacity')}[c['mode']]
+        c['what'] = {'clip': 'the clip path', 'mask': 'the mask', 'opacity': 'group opacity %s' % c.get('opacity'),
+                     'cover': 'an all-covering %s around thick open strokes' % c.get('cover')}[c['mode']]
         if c.get('shared'):
             c['what'] += ' shared by several elements with different boxes (%s)' % c['units']
         for kind, text in classify(ctx, c, r, stats, "%s|%s" % (c['mode'], c['doc'])):
